@@ -99,3 +99,46 @@ def padToSwapped {α} (fill : α) (target : Nat) (xs : List α) : List α :=
 def cccStart (n s : Int) : Int := (n - s) / 2
 
 end DirectVerif.Crop
+
+namespace DirectVerif.Crop
+
+/-! ### `PadKspace` / `CropKspace`: the k-space transform is a plan of operator applications
+
+The call sequence applied to `sample["kspace"]` is extracted from the source on every run
+(`Gen.C10.padKspacePlan`, `Gen.C10.cropKspacePlan`) and must equal these. -/
+inductive KOp where
+  | backward | viewComplex | pad | viewReal | forward | crop
+deriving Repr, DecidableEq
+
+def KOp.ofString : String → Option KOp
+  | "backward_operator" => some .backward
+  | "view_as_complex" => some .viewComplex
+  | "pad_tensor" => some .pad
+  | "view_as_real" => some .viewReal
+  | "forward_operator" => some .forward
+  | "crop_func" => some .crop
+  | _ => none
+
+def padKspacePlan : List KOp := [.backward, .viewComplex, .pad, .viewReal, .forward]
+def cropKspacePlan : List KOp := [.backward, .crop, .forward]
+
+/-- the operators a plan is run with; `α` stands for tensors of any shape (k-space and image alike) -/
+structure KOps (α : Type) where
+  fwd : α → α
+  bwd : α → α
+  vc : α → α
+  vr : α → α
+  pad : α → α
+  crop : α → α
+
+def KOp.run {α} (o : KOps α) : KOp → α → α
+  | .backward => o.bwd
+  | .viewComplex => o.vc
+  | .pad => o.pad
+  | .viewReal => o.vr
+  | .forward => o.fwd
+  | .crop => o.crop
+
+def runPlan {α} (o : KOps α) (plan : List KOp) (x : α) : α := plan.foldl (fun acc op => op.run o acc) x
+
+end DirectVerif.Crop
